@@ -29,8 +29,32 @@ From DV Require Export Base.
 
 Record nrow := { n_id : uid; n_mdate : Z; n_sig : N }.
 Record tomb := { t_id : uid; t_mdate : Z; t_ddate : Z }.   (* key in _node_deletion_log: (id, deletion date) *)
-Record replica := { nodes : list nrow; tombs : list tomb }.
-Definition empty_replica : replica := {| nodes := []; tombs := [] |}.
+(* a reference src -(label)-> dest; one label ("refs") and one source entity in the model: the key of
+   _edge is (src, dest); the key of _edge_deletion_log is (deletion date, src, dest) *)
+Record erow := { e_src : uid; e_dest : uid; e_cdate : Z }.
+Record etomb := { et_src : uid; et_dest : uid; et_cdate : Z; et_ddate : Z }.
+Record replica := { nodes : list nrow; tombs : list tomb; edges : list erow; etombs : list etomb }.
+Definition empty_replica : replica := {| nodes := []; tombs := []; edges := []; etombs := [] |}.
+(* the same replica with other rows / row deletion records *)
+Definition with_nodes (r : replica) (ns : list nrow) : replica :=
+  {| nodes := ns; tombs := tombs r; edges := edges r; etombs := etombs r |}.
+Definition with_nodes_tombs (r : replica) (ns : list nrow) (ts : list tomb) : replica :=
+  {| nodes := ns; tombs := ts; edges := edges r; etombs := etombs r |}.
+
+Definition edge_eqb (a b : erow) : bool :=
+  N.eqb (e_src a) (e_src b) && N.eqb (e_dest a) (e_dest b) && Z.eqb (e_cdate a) (e_cdate b).
+Definition same_ends (a b : erow) : bool := N.eqb (e_src a) (e_src b) && N.eqb (e_dest a) (e_dest b).
+Definition etomb_eqb (a b : etomb) : bool :=
+  N.eqb (et_src a) (et_src b) && N.eqb (et_dest a) (et_dest b) && Z.eqb (et_cdate a) (et_cdate b) && Z.eqb (et_ddate a) (et_ddate b).
+Definition same_ekey (a b : etomb) : bool :=
+  N.eqb (et_src a) (et_src b) && N.eqb (et_dest a) (et_dest b) && Z.eqb (et_ddate a) (et_ddate b).
+Definition has_edge (l : list erow) (e : erow) : bool := existsb (edge_eqb e) l.
+Definition has_etomb (l : list etomb) (t : etomb) : bool := existsb (etomb_eqb t) l.
+Definition find_edge (x y : uid) (l : list erow) : option erow := find (fun e => N.eqb (e_src e) x && N.eqb (e_dest e) y) l.
+(* Edge::write: INSERT OR REPLACE on (src, label, dest) — no date comparison *)
+Definition put_edge (l : list erow) (e : erow) : list erow := e :: filter (fun u => negb (same_ends u e)) l.
+Definition etomb_put (l : list etomb) (t : etomb) : list etomb :=
+  if has_etomb l t then l else t :: filter (fun u => negb (same_ekey u t)) l.
 
 Definition row_eqb (a b : nrow) : bool :=
   N.eqb (n_id a) (n_id b) && Z.eqb (n_mdate a) (n_mdate b) && N.eqb (n_sig a) (n_sig b).
@@ -67,15 +91,33 @@ Definition tombs_on_day (d : Z) (l : list tomb) : list tomb := filter (fun t => 
    bb1bffb: every record of an answer is stored (batches with one record per row id) *)
 Definition covered (t : tomb) (n : nrow) : bool := N.eqb (n_id n) (t_id t) && (n_mdate n <=? t_mdate t).
 Definition apply_tomb (r : replica) (t : tomb) : replica :=
-  {| nodes := filter (fun n => negb (covered t n)) (nodes r); tombs := tomb_put (tombs r) t |}.
+  with_nodes_tombs r (filter (fun n => negb (covered t n)) (nodes r)) (tomb_put (tombs r) t).
+(* EdgeDeletionEntry::delete_all: DELETE FROM _edge WHERE src, src_entity, label, dest, cdate all equal
+   — only the exactly named version of the reference —, then INSERT OR REPLACE of the record; a received
+   node deletion record does NOT remove the references of the row (only a local deletion does) *)
+Definition apply_etomb (r : replica) (t : etomb) : replica :=
+  {| nodes := nodes r; tombs := tombs r;
+     edges := filter (fun e => negb (N.eqb (e_src e) (et_src t) && N.eqb (e_dest e) (et_dest t) && Z.eqb (e_cdate e) (et_cdate t))) (edges r);
+     etombs := etomb_put (etombs r) t |}.
+Definition etombs_on_day (d : Z) (l : list etomb) : list etomb := filter (fun t => Z.eqb (day (et_ddate t)) d) l.
 
 (* synchronise_day for one (entity, day): returns the receiver and the number of rows requested
    (Query::Nodes) *)
+(* the references that travel with the fetched rows: Query::Edges(room, [(id, old mdate)]) is asked for
+   the rows that passed filter_existing only; Edge::filtered_by_room serves the references of such a row
+   whose creation date is not before the version the receiver held (0 if it held none) *)
+Definition old_mdate (stored : list nrow) (x : uid) : Z :=
+  match find_node x stored with Some e => n_mdate e | None => 0 end.
+Definition refs_sent (src : replica) (stored : list nrow) (fetch : list nrow) : list erow :=
+  flat_map (fun o => filter (fun e => N.eqb (e_src e) (n_id o) && (old_mdate stored (n_id o) <=? e_cdate e)) (edges src)) fetch.
 Definition sync_day (src : replica) (acc : replica * N) (d : Z) : replica * N :=
   let '(dst, cnt) := acc in
-  let dst1 := fold_left apply_tomb (tombs_on_day d (tombs src)) dst in
+  let dst0 := fold_left apply_etomb (etombs_on_day d (etombs src)) dst in
+  let dst1 := fold_left apply_tomb (tombs_on_day d (tombs src)) dst0 in
   let fetch := filter (fun o => wanted (nodes dst1) o && negb (below_tomb (tombs dst1) o)) (on_day d (nodes src)) in
-  ({| nodes := fold_left put_node fetch (nodes dst1); tombs := tombs dst1 |}, (cnt + N.of_nat (length fetch))%N).
+  ({| nodes := fold_left put_node fetch (nodes dst1); tombs := tombs dst1;
+      edges := fold_left put_edge (refs_sent src (nodes dst1) fetch) (edges dst1); etombs := etombs dst1 |},
+   (cnt + N.of_nat (length fetch))%N).
 
 (* a day's answer travels cut into batches of bounded size (the serving loops of
    NodeDeletionEntry::get_entries, Node::get_daily_nodes_for_room, Node::filtered_by_room); the receiver
@@ -107,10 +149,12 @@ Inductive sop :=
 | Create (p : N) (x : uid) (t : Z) (sg : N)      (* mutate { ns.Doc{ room_id .. } } at clock t; sg = signature rank *)
 | Update (p : N) (x : uid) (t : Z) (sg : N)      (* mutate { ns.Doc{ id:x .. } } *)
 | Delete (p : N) (x : uid) (t : Z)               (* delete { ns.Doc{ x } } *)
+| AddRef (p : N) (x y : uid) (t : Z) (sg : N)    (* mutate { ns.Doc{ id:x refs:[{id:y}] } }: reference + re-dated source row *)
+| DelRef (p : N) (x y : uid) (t : Z) (sg : N)    (* delete { ns.Doc{ x refs[y] } }: deletion record + re-dated source row *)
 | Pull (dst src : N) (days : list Z).            (* dst synchronises the room from src; days = what the log comparison selected *)
 
 Definition op_peer (o : sop) : N :=
-  match o with Create p _ _ _ | Update p _ _ _ | Delete p _ _ => p | Pull d _ _ => d end.
+  match o with Create p _ _ _ | Update p _ _ _ | Delete p _ _ | AddRef p _ _ _ _ | DelRef p _ _ _ _ => p | Pull d _ _ => d end.
 
 Definition mentions (x : uid) (r : replica) : bool :=
   existsb (fun n => N.eqb (n_id n) x) (nodes r) || existsb (fun t => N.eqb (t_id t) x) (tombs r).
@@ -122,21 +166,49 @@ Definition step (S : sys) (o : sop) : sys * Z * bool :=
   match o with
   | Create p x t sg =>
       let r := get p S in
-      (set p {| nodes := put_node (nodes r) {| n_id := x; n_mdate := t; n_sig := sg |}; tombs := tombs r |} S, 1,
-       mentions x r)
+      (set p (with_nodes r (put_node (nodes r) {| n_id := x; n_mdate := t; n_sig := sg |})) S, 1, mentions x r)
   | Update p x t sg =>
       let r := get p S in
       match find_node x (nodes r) with
-      | Some e => (set p {| nodes := put_node (nodes r) {| n_id := x; n_mdate := t; n_sig := sg |}; tombs := tombs r |} S, 1,
-                   t <? n_mdate e)
+      | Some e => (set p (with_nodes r (put_node (nodes r) {| n_id := x; n_mdate := t; n_sig := sg |})) S, 1, t <? n_mdate e)
       | None => (S, 0, false)          (* UnknownEntity: nothing written *)
       end
   | Delete p x t =>
       let r := get p S in
       match find_node x (nodes r) with
       | Some e => (set p {| nodes := remove_node x (nodes r);
-                            tombs := tomb_put (tombs r) {| t_id := x; t_mdate := n_mdate e; t_ddate := t |} |} S, 1, false)
+                            tombs := tomb_put (tombs r) {| t_id := x; t_mdate := n_mdate e; t_ddate := t |};
+                            (* Edge::delete_src / delete_dest: the references from and to the row go, without records *)
+                            edges := filter (fun u => negb (N.eqb (e_src u) x) && negb (N.eqb (e_dest u) x)) (edges r);
+                            etombs := etombs r |} S, 1, false)
       | None => (S, 0, false)          (* nothing selected: no tombstone *)
+      end
+  | AddRef p x y t sg =>
+      let r := get p S in
+      match find_node x (nodes r), find_node y (nodes r) with
+      | Some ex, Some _ =>
+          match find_edge x y (edges r) with
+          | Some _ => (S, 1, false)    (* the reference exists: nothing is written *)
+          | None => (set p {| nodes := put_node (nodes r) {| n_id := x; n_mdate := t; n_sig := sg |}; tombs := tombs r;
+                               edges := put_edge (edges r) {| e_src := x; e_dest := y; e_cdate := t |}; etombs := etombs r |} S,
+                     1, t <? n_mdate ex)
+          end
+      | _, _ => (S, 0, false)          (* UnknownEntity *)
+      end
+  | DelRef p x y t sg =>
+      let r := get p S in
+      match find_node x (nodes r) with
+      | Some ex =>
+          (* the source row is re-dated and re-signed whether or not the reference exists *)
+          let ns := put_node (nodes r) {| n_id := x; n_mdate := t; n_sig := sg |} in
+          match find_edge x y (edges r) with
+          | Some e => (set p {| nodes := ns; tombs := tombs r;
+                                edges := filter (fun u => negb (same_ends u e)) (edges r);
+                                etombs := etomb_put (etombs r) {| et_src := x; et_dest := y; et_cdate := e_cdate e; et_ddate := t |} |} S,
+                       1, t <? n_mdate ex)
+          | None => (set p (with_nodes r ns) S, 0, t <? n_mdate ex)
+          end
+      | None => (S, 0, false)
       end
   | Pull d s days =>
       let '(r, cnt) := pull_replica (get d S) (get s S) days in
@@ -147,7 +219,8 @@ Definition step (S : sys) (o : sop) : sys * Z * bool :=
         filter_existing would let through, and of the source's tombstones the receiver lacks ---- *)
 Definition needed_days (dst src : replica) : list Z :=
   map (fun n => day (n_mdate n)) (filter (wanted (nodes dst)) (nodes src)) ++
-  map (fun t => day (t_ddate t)) (filter (fun t => negb (has_tomb (tombs dst) t)) (tombs src)).
+  map (fun t => day (t_ddate t)) (filter (fun t => negb (has_tomb (tombs dst) t)) (tombs src)) ++
+  map (fun t => day (et_ddate t)) (filter (fun t => negb (has_etomb (etombs dst) t)) (etombs src)).
 Definition days_cover (days need : list Z) : bool := forallb (fun d => existsb (Z.eqb d) days) need.
 
 (* ---- dumps: rows sorted by id, tombstones by (id, deletion date) ---- *)
@@ -165,9 +238,22 @@ Fixpoint ins_tomb (n : tomb) (l : list tomb) : list tomb :=
   end.
 Definition sort_tombs (l : list tomb) : list tomb := fold_right ins_tomb [] l.
 
+Definition edge_le (a b : erow) : bool := (e_src a <? e_src b)%N || (N.eqb (e_src a) (e_src b) && (e_dest a <=? e_dest b)%N).
+Fixpoint ins_edge (n : erow) (l : list erow) : list erow :=
+  match l with [] => [n] | h :: t => if edge_le n h then n :: l else h :: ins_edge n t end.
+Definition sort_edges (l : list erow) : list erow := fold_right ins_edge [] l.
+Definition etomb_le (a b : etomb) : bool :=
+  (et_src a <? et_src b)%N || (N.eqb (et_src a) (et_src b) &&
+    ((et_dest a <? et_dest b)%N || (N.eqb (et_dest a) (et_dest b) && (et_ddate a <=? et_ddate b)))).
+Fixpoint ins_etomb (n : etomb) (l : list etomb) : list etomb :=
+  match l with [] => [n] | h :: t => if etomb_le n h then n :: l else h :: ins_etomb n t end.
+Definition sort_etombs (l : list etomb) : list etomb := fold_right ins_etomb [] l.
+
 Definition enc_dump (r : replica) : list Z :=
   Z.of_nat (length (nodes r)) :: flat_map (fun n => [zn (n_id n); n_mdate n; zn (n_sig n)]) (sort_nodes (nodes r)) ++
-  Z.of_nat (length (tombs r)) :: flat_map (fun t => [zn (t_id t); t_mdate t; t_ddate t]) (sort_tombs (tombs r)).
+  Z.of_nat (length (tombs r)) :: flat_map (fun t => [zn (t_id t); t_mdate t; t_ddate t]) (sort_tombs (tombs r)) ++
+  Z.of_nat (length (edges r)) :: flat_map (fun e => [zn (e_src e); zn (e_dest e); e_cdate e]) (sort_edges (edges r)) ++
+  Z.of_nat (length (etombs r)) :: flat_map (fun t => [zn (et_src t); zn (et_dest t); et_cdate t; et_ddate t]) (sort_etombs (etombs r)).
 
 (* the run: observation = for every step [flag] ++ dump of the peer the step touched *)
 Fixpoint run_obs (S : sys) (ops : list sop) : list Z :=
@@ -223,14 +309,40 @@ Fixpoint dec_tombs (k : nat) (l : list Z) : option (list tomb * list Z) :=
                 | None => None end
             | _ => None end
   end.
+Fixpoint dec_edges (k : nat) (l : list Z) : option (list erow * list Z) :=
+  match k with
+  | O => Some ([], l)
+  | S k' => match l with
+            | a :: b :: c :: rest =>
+                match dec_edges k' rest with
+                | Some (rs, rest') => Some ({| e_src := Z.to_N a; e_dest := Z.to_N b; e_cdate := c |} :: rs, rest')
+                | None => None end
+            | _ => None end
+  end.
+Fixpoint dec_etombs (k : nat) (l : list Z) : option (list etomb * list Z) :=
+  match k with
+  | O => Some ([], l)
+  | S k' => match l with
+            | a :: b :: c :: d :: rest =>
+                match dec_etombs k' rest with
+                | Some (rs, rest') => Some ({| et_src := Z.to_N a; et_dest := Z.to_N b; et_cdate := c; et_ddate := d |} :: rs, rest')
+                | None => None end
+            | _ => None end
+  end.
 Definition dec_dump (l : list Z) : option (replica * list Z) :=
   match l with
   | k :: rest =>
       match dec_rows (Z.to_nat k) rest with
       | Some (ns, m :: rest') =>
           match dec_tombs (Z.to_nat m) rest' with
-          | Some (ts, rest'') => Some ({| nodes := ns; tombs := ts |}, rest'')
-          | None => None end
+          | Some (ts, ke :: rest2) =>
+              match dec_edges (Z.to_nat ke) rest2 with
+              | Some (es, kt :: rest3) =>
+                  match dec_etombs (Z.to_nat kt) rest3 with
+                  | Some (ets, rest4) => Some ({| nodes := ns; tombs := ts; edges := es; etombs := ets |}, rest4)
+                  | None => None end
+              | _ => None end
+          | _ => None end
       | _ => None end
   | [] => None
   end.
@@ -251,14 +363,26 @@ Definition rows_subset (a b : list nrow) : bool := forallb (has_row b) a.
 Definition tombs_subset (a b : list tomb) : bool := forallb (has_tomb b) a.
 Definition same_rows (a b : replica) : bool := rows_subset (nodes a) (nodes b) && rows_subset (nodes b) (nodes a).
 Definition same_tombs (a b : replica) : bool := tombs_subset (tombs a) (tombs b) && tombs_subset (tombs b) (tombs a).
-Definition agree (a b : replica) : bool := same_rows a b && same_tombs a b.
+(* the references a replica SHOWS: both ends are rows it holds (a query joins the reference with both) *)
+Definition visible (r : replica) (e : erow) : bool :=
+  match find_node (e_src e) (nodes r), find_node (e_dest e) (nodes r) with Some _, Some _ => true | _, _ => false end.
+Definition shown_refs (r : replica) : list erow := filter (visible r) (edges r).
+(* the receiver holds a reference with the same ends (what a query shows) *)
+Definition ref_held (dst : replica) (e : erow) : bool :=
+  match find_edge (e_src e) (e_dest e) (edges dst) with Some _ => true | None => false end.
+Definition same_refs (a b : replica) : bool :=
+  forallb (ref_held b) (shown_refs a) && forallb (ref_held a) (shown_refs b).
+Definition same_etombs (a b : replica) : bool :=
+  forallb (has_etomb (etombs b)) (etombs a) && forallb (has_etomb (etombs a)) (etombs b).
+Definition agree (a b : replica) : bool := same_rows a b && same_tombs a b && same_refs a b && same_etombs a b.
 Fixpoint all_agree (S : sys) : bool :=
   match S with a :: ((b :: _) as t) => agree a b && all_agree t | _ => true end.
 
 (* a pull that moves nothing: every selected day, exchanged with the receiver as it is, requests no
    row and leaves the receiver as it is *)
 Definition replica_eqb (a b : replica) : bool :=
-  list_eqb row_eqb (nodes a) (nodes b) && list_eqb tomb_eqb (tombs a) (tombs b).
+  list_eqb row_eqb (nodes a) (nodes b) && list_eqb tomb_eqb (tombs a) (tombs b) &&
+  list_eqb edge_eqb (edges a) (edges b) && list_eqb etomb_eqb (etombs a) (etombs b).
 Definition day_still (dst src : replica) (d : Z) : bool :=
   let '(r, c) := sync_day src (dst, 0%N) d in N.eqb c 0 && replica_eqb r dst.
 Definition pull_still (dst src : replica) (days : list Z) : bool := forallb (day_still dst src) days.
